@@ -416,25 +416,33 @@ func init() {
 		// ---- makeConfig: one result per service ---------------------------------------------------------------
 		// the goroutine started per service: what it does with channels, in order, and whether anything in it is
 		// conditional or leaves early ("send" = channel send, "recv" = channel receive); the collector: a loop
-		// that receives once per element of the very collection the goroutines were started from.
+		// (counting up to len(m), or ranging over m) that receives once per element of the very collection the
+		// goroutines were started from.
 		{
 			var gev []string
 			spawnedFrom, awaited := "", ""
+			recvs := func(n ast.Node) int {
+				k := 0
+				ast.Inspect(n, func(m ast.Node) bool {
+					if u, ok := m.(*ast.UnaryExpr); ok && u.Op == token.ARROW {
+						k++
+					}
+					return true
+				})
+				return k
+			}
 			ast.Inspect(root.Body, func(n ast.Node) bool {
 				switch v := n.(type) {
 				case *ast.RangeStmt:
 					if len(x.goStmts(v.Body)) > 0 {
 						spawnedFrom = x.src(v.X)
+					} else if recvs(v.Body) == 1 && v.Key == nil && v.Value == nil {
+						// `for range m { … <-results … }`: one receive per element
+						awaited = x.src(v.X)
 					}
 				case *ast.ForStmt:
-					recv := false
-					ast.Inspect(v.Body, func(k ast.Node) bool {
-						if u, ok := k.(*ast.UnaryExpr); ok && u.Op == token.ARROW {
-							recv = true
-						}
-						return true
-					})
-					if recv && v.Cond != nil {
+					// `for i := 0; i < len(m); i++ { … <-results … }`: one receive per element
+					if recvs(v.Body) == 1 && v.Cond != nil && len(x.goStmts(v.Body)) == 0 {
 						if b, ok := v.Cond.(*ast.BinaryExpr); ok && b.Op == token.LSS {
 							if c, ok := b.Y.(*ast.CallExpr); ok && x.src(c.Fun) == "len" && len(c.Args) == 1 {
 								awaited = x.src(c.Args[0])
